@@ -55,7 +55,7 @@ EXTRA = {
     'C19': checks2.run_c19,
     'C13': checks3.run_c13,
 }
-REPLAY = {'c13': checks3.replay_c13}
+REPLAY = {'c13': checks3.replay_c13, 'memcheck': checks.replay_memcheck}
 SETUP = [checks2.setup, checks3.setup]
 
 
